@@ -637,6 +637,7 @@ def _job_forms(cases):
     validated = 0
     samples = []
     known = []
+    conf_errors = []
     for c in cases:
         oc, v = _forms_case(c)
         outcomes[repr(oc)] += 1
@@ -658,13 +659,15 @@ def _job_forms(cases):
                              'on the real kernel object: ' + rv))
                 break
             if roc != oc:
-                raise HarnessError(
+                conf_errors.append(
                     'model and real kernel disagree on %r: model %r, '
                     'real %r' % (c, oc, roc))
+                break
             validated += 1
     return dict(part='forms', evaluations=len(cases), outcomes=outcomes,
                 violations=viol, validated=validated, samples=samples,
-                decisions=0, max_depth=0, max_cost=0, known=known)
+                decisions=0, max_depth=0, max_cost=0, known=known,
+                conf_errors=conf_errors)
 
 
 # ========================================================== split / peerclose
@@ -730,7 +733,9 @@ def _run_stream(cfg, prefix, sink=None):
                 elif clean and got[-1] != ('exc', 'EOFError'):
                     v = ('clean end of stream after %d message(s) reported '
                          'as %s, not EOFError' % (nfull, got[-1][1]))
-                elif sink is not None:
+                elif sink is not None and not any(
+                        k.startswith('eintr') for k in env.count):
+                    # (EINTR cannot be provoked on the real kernel object)
                     sink['traces'].setdefault(tuple(env.reads), got)
     except Runaway as exc:
         v = 'runaway: %s' % exc
@@ -879,6 +884,7 @@ def _job_stream(job):
     part, cfgs, bound, max_short = job
     st = explore.Stats()
     viol = []
+    conf_errors = []
     validated = 0
     for cfg in cfgs:
         sink = {'stream': None, 'traces': {}, 'base': 0}
@@ -897,21 +903,30 @@ def _job_stream(job):
             viol.append((dict(cfg, part=part), ch, msg))
             break
         sink['base'] = first[0]
-        validated += _conform(cfg, sink, max_short)
-        if cfg.get('cut') is None and cfg.get('wire'):
-            sform = cfg.get('sform', 'bytes')
-            if sform != 'offset':
-                kind = 'pipe' if cfg['kind'] == 'pipe' else 'sock'
-                real = _real_wire(kind, cfg['lens'], sform)
-                if real != sink['stream']:
-                    raise HarnessError(
-                        'byte stream of the real sender differs between the '
-                        'virtual and the real %s for %r' % (kind, cfg))
-                validated += 1
+        try:
+            validated += _conform(cfg, sink, max_short)
+            if cfg.get('cut') is None and cfg.get('wire'):
+                sform = cfg.get('sform', 'bytes')
+                if sform != 'offset':
+                    kind = 'pipe' if cfg['kind'] == 'pipe' else 'sock'
+                    real = _real_wire(kind, cfg['lens'], sform)
+                    if real != sink['stream']:
+                        raise HarnessError(
+                            'byte stream of the real sender differs between '
+                            'the virtual and the real %s for %r' % (kind, cfg))
+                    validated += 1
+        except HarnessError as exc:
+            # model / real kernel disagreement: never a verdict.  Reported
+            # as a harness error by main() unless some job found a violation
+            # (a broken tree may break the conformance replay as well).
+            conf_errors.append(str(exc))
+            break
     d = st.as_dict()
     d.update(part=part, violations=viol, validated=validated,
              evaluations=st.executions, configs=len(cfgs),
-             samples=_sample(cfgs[0], _run_stream, bound))
+             conf_errors=conf_errors,
+             samples=[] if viol or conf_errors else
+             _sample(cfgs[0], _run_stream, bound))
     return d
 
 
@@ -1147,7 +1162,7 @@ def _job_conc(job):
     d = st.as_dict()
     d.update(part=part, violations=viol, validated=0,
              evaluations=st.executions, configs=len(cfgs),
-             samples=_sample(cfgs[0], _run_conc, bound))
+             samples=[] if viol else _sample(cfgs[0], _run_conc, bound))
     return d
 
 
@@ -1202,7 +1217,9 @@ def main(tier, seed, only=None):
     # with one job per task balances well enough
     res = par.pmap('harness.c13:_job', [jobs[i] for i in order], chunksize=1)
     by = {}
+    conf_errors = []
     for i, d in sorted(zip(order, res), key=lambda p: p[0]):
+        conf_errors += d.get('conf_errors', [])
         part = d['part']
         agg = by.setdefault(part, dict(
             evaluations=0, decisions=0, max_depth=0, max_cost=0,
@@ -1225,6 +1242,10 @@ def main(tier, seed, only=None):
             rep.violation('%s\nconfig=%r' % (msg, cfg),
                           dict(harness='c13', config=cfg, choices=[]),
                           signature=cfg['kf'])
+    if conf_errors and not rep.violations:
+        raise HarnessError('conformance: %d disagreement(s) between the '
+                           'virtual and the real kernel objects, first: %s'
+                           % (len(conf_errors), conf_errors[0]))
     for part in sorted(by):
         a = by[part]
         rep.part(part, evaluations=a['evaluations'],
